@@ -351,3 +351,94 @@ func judgeCarryOver(setupSrc, outSrc []byte, converterNames map[string]bool) [][
 	}
 	return out
 }
+
+// judgeUnmarkedInterfaces (C17): every interface of the setup file that is not a converter interface is carried
+// over untouched — its declaration, its doc comment (whatever the lines look like) and the comments in its body.
+func judgeUnmarkedInterfaces(setupSrc, outSrc []byte, converterNames map[string]bool) [][2]string {
+	var out [][2]string
+	fs1, fs2 := token.NewFileSet(), token.NewFileSet()
+	sf, err1 := parser.ParseFile(fs1, "setup.go", setupSrc, parser.ParseComments)
+	of, err2 := parser.ParseFile(fs2, "out.go", outSrc, parser.ParseComments)
+	if err1 != nil || err2 != nil {
+		return nil
+	}
+	outLines := map[string]int{}
+	for _, cg := range of.Comments {
+		for _, c := range cg.List {
+			outLines[c.Text]++
+		}
+	}
+	outIntf := map[string]string{}
+	for _, d := range of.Decls {
+		if gd, ok := d.(*ast.GenDecl); ok && gd.Tok == token.TYPE {
+			for _, sp := range gd.Specs {
+				ts := sp.(*ast.TypeSpec)
+				if it, ok := ts.Type.(*ast.InterfaceType); ok {
+					outIntf[ts.Name.Name] = methodListText(fs2, it)
+				}
+			}
+		}
+	}
+	for _, d := range sf.Decls {
+		gd, ok := d.(*ast.GenDecl)
+		if !ok || gd.Tok != token.TYPE {
+			continue
+		}
+		for _, sp := range gd.Specs {
+			ts := sp.(*ast.TypeSpec)
+			it, ok := ts.Type.(*ast.InterfaceType)
+			if !ok || converterNames[ts.Name.Name] {
+				continue
+			}
+			got, present := outIntf[ts.Name.Name]
+			if !present {
+				out = append(out, [2]string{"C17|unmarked-interface-missing", "interface " + ts.Name.Name + " is not a converter interface but is missing in the output"})
+				continue
+			}
+			if got != methodListText(fs1, it) {
+				out = append(out, [2]string{"C17|unmarked-interface-changed", "the method list of the unmarked interface " + ts.Name.Name + " changed"})
+			}
+			var lines []string
+			for _, doc := range []*ast.CommentGroup{gd.Doc, ts.Doc} {
+				if doc != nil {
+					for _, c := range doc.List {
+						lines = append(lines, c.Text)
+					}
+				}
+			}
+			for _, cg := range sf.Comments {
+				if cg.Pos() > it.Methods.Opening && cg.End() <= it.Methods.Closing {
+					for _, c := range cg.List {
+						lines = append(lines, c.Text)
+					}
+				}
+			}
+			for _, l := range lines {
+				if reDirective.MatchString(l) {
+					continue
+				}
+				if outLines[l] == 0 {
+					out = append(out, [2]string{"C17|unmarked-interface-comment-lost", fmt.Sprintf("comment line %q of the unmarked interface %s is missing in the output", l, ts.Name.Name)})
+				} else {
+					outLines[l]--
+				}
+			}
+		}
+	}
+	return out
+}
+
+func methodListText(fset *token.FileSet, it *ast.InterfaceType) string {
+	var parts []string
+	for _, m := range it.Methods.List {
+		var sb strings.Builder
+		for _, n := range m.Names {
+			sb.WriteString(n.Name + " ")
+		}
+		var buf bytes.Buffer
+		_ = printer.Fprint(&buf, fset, m.Type)
+		sb.WriteString(strings.Join(strings.Fields(buf.String()), " "))
+		parts = append(parts, sb.String())
+	}
+	return strings.Join(parts, "; ")
+}
